@@ -79,7 +79,9 @@ func sample(rng *rand.Rand, n *Node, alpha []rune, out *[]rune, depth int) {
 			sample(rng, n.Subs[0], alpha, out, depth+1)
 		}
 	case KLook:
-		if !n.Neg && !n.Behind && rng.Intn(2) == 0 {
+		// a lookbehind's text precedes what follows it in the pattern: emitting it here puts it there; a
+		// lookahead's text overlaps what follows (emitted half of the time, as a near miss or a prefix)
+		if !n.Neg && (n.Behind && rng.Intn(4) != 0 || !n.Behind && rng.Intn(2) == 0) {
 			sample(rng, n.Subs[0], alpha, out, depth)
 		}
 	case KRef:
@@ -126,7 +128,7 @@ func Alphabet(n *Node, extra []rune) []rune {
 
 // Inputs returns pattern-directed random strings (with near-miss mutations and random context).
 func Inputs(rng *rand.Rand, n *Node, count, maxLen int) [][]rune {
-	alpha := Alphabet(n, []rune{'a', 'b', '1', ' ', 'é', 0x301, 0x1F600})
+	alpha := Alphabet(n, []rune{'a', 'b', '1', ' ', 'é', 0x301, 0x1F600, 0x1F601})
 	var res [][]rune
 	res = append(res, []rune{})
 	for len(res) < count {
